@@ -10,6 +10,16 @@ from . import sched
 
 def jobs(tier):
     js = sched.jobs_c03(tier)
+    # lemma behind the abstract task: the first pass reports every .txtpp-backed include / after target as a dependency, whatever the
+    # name shape of the producer (a dependency that is not reported is never processed: "success" without its output)
+    from .fsprops import DEP_SHAPES
+    for shape in range(len(DEP_SHAPES) - 1):
+        for kind in ('include', 'after'):
+            js.append({'name': 'lemma every dependency is reported shape=%d %s' % (shape, kind), 'harness': ('props.fsprops', 'h_deps'),
+                       'params': {'mode': 'Build', 'shape': shape, 'kind': kind, 'stale_output': kind == 'include'}})
+    # a command writing more than a pipe holds must not keep the run from ending
+    js.append({'name': 'command writing 70000 bytes to stdout', 'harness': ('props.c18', 'h_big_output'), 'params': {'nbytes': 70000, 'stream': 'stdout'},
+               'max_steps': 20_000_000})
     from . import project
     js += project.jobs('C03', tier)
     return js
@@ -23,4 +33,14 @@ BOUNDS = {k: v + _project.bounds_note('C03', k) for k, v in BOUNDS.items()}
 ASSUMPTIONS = ['as C02; aliases are spellings that canonicalize to the same path in the FS model; symbolic links occur only in the project layouts `links` / `links-ok` (a linked source file, a linked sub-directory)',
                'termination = the coordinator loop exits within the step bound on every schedule of the model (real time is not modelled)']
 COVERS_REQUIRED = ['acyclic', 'cyclic']
-replay = sched.replay
+
+
+def replay(native, v):
+    op = v['data'].get('op')
+    if op == 'deps':
+        from .fsprops import replay_deps
+        return replay_deps(v)
+    if op == 'raw':
+        from . import c18
+        return c18.replay(native, v)
+    return sched.replay(native, v)
